@@ -236,7 +236,7 @@ def families(ctx):
                 call, obs, wres = fam.call(args, kwargs), "RErr", "RNone"
                 desc = desc or f"structure ({type(e).__name__})"
             if fam.chk == 2:
-                call = call.replace("{FIXED}", "true" if _is_fixed(fam.name, sk, args) else "false")
+                call = call.replace("{FIXED}", "true" if _is_fixed(fam.name, sk, args, tr) else "false")
                 obs, wres = {"RErr": "R2Err", "RNone": "R2None"}.get(obs, obs), {"RErr": "R2Err", "RNone": "R2None"}.get(wres, wres)
             if fam.chk == 3:
                 if getattr(fam, "flags", None) is not None:            # which repaired variant the observed skeleton shows
@@ -244,7 +244,7 @@ def families(ctx):
                     call = call.replace("{F1}", "true" if fl[0] else "false").replace("{F2}", "true" if fl[1] else "false")
                 obs, wres = {"RErr": "R3Err", "RNone": "R3None"}.get(obs, obs), {"RErr": "R3Err", "RNone": "R3None"}.get(wres, wres)
             ctx.case((fam.name,) + tuple(fam.cls(args, kwargs)))
-            fixed = _is_fixed(fam.name, sk, args)
+            fixed = _is_fixed(fam.name, sk, args, tr)
             if fam.chk == 1:
                 cases[1].append(f"({'true' if fixed else 'false'}, {call}, {_skel_lit(sk)}, {obs}, {wres})")
             else:
@@ -384,9 +384,20 @@ def _coq_shards(ctx, requires, bodies, par=2, timeout=900):
         return list(ex.map(one, files))
 
 
-def _is_fixed(name, sk, args=None):
+def _is_fixed(name, sk, args=None, tr=None):
     """which variant of the code produced the skeleton: the pinned one or the one repaired by a proposed fix"""
     ops = [o for o, _ in sk]
+    if name == "cat":                       # proposed_fixes/ready/C08_15: Concat receives only the tensors that were not filtered out
+        legacy = [t for t in args[0] if t["shape"] == [0]]
+        if legacy and len(legacy) == len(args[0]):
+            return ops == ["Identity"]
+        if legacy and tr is not None:
+            for node in tr.model.graph:
+                if node.op_type == "Concat":
+                    return len(node.inputs) == len(args[0]) - len(legacy)
+        return False
+    if name == "unfold":                    # proposed_fixes/ready/C08_16
+        return "Slice" in ops
     if name == "diagonal":                  # proposed_fixes/C08_diagonal_where_mask.diff
         return "Where" in ops
     if name.startswith(("max_pool", "avg_pool")):   # proposed_fixes/C08_pool_expand_one_entry_lists.diff: one-entry lists arrive expanded
@@ -464,6 +475,7 @@ def sweep_finish(ctx, p):
                                   "harness/c08_sweep.py observes on the pinned tree for OpInfo samples (as-is or perturbed, torch accepting the "
                                   "call) that the repository does not list as skip/xfail. Written only by a developer run with C08_WRITE_BASELINE=1, "
                                   "never by a check. Each listed mismatch seen again is printed as KNOWN-FINDING; one that is NOT listed is a violation.",
+                       "classification": _old.get("classification", {}),
                        "mismatches": sorted(old | set(res["mismatches"])),
                        "details": {**_old_details, **{k: res["details"].get(k, "") for k in sorted(res["mismatches"])}}}, f, indent=1)
     bdoc = json.load(open(_BASELINE)) if os.path.exists(_BASELINE) else {"mismatches": [], "details": {}}
